@@ -432,10 +432,17 @@ def mutational_timescale(
     # An interval without any mutations would be rescaled to zero duration, so
     # merge it into the next (older) interval, or into the previous one if it
     # is the oldest; this is equivalent to using fewer rescaling intervals
+    # (the test is on the rescaled clock itself: `counts` is a running sum, so an
+    # interval without mutations may hold rounding residue rather than exact zeros)
     merged = [changepoints[0]]
+    elapsed = 0.0
     for j in changepoints[1:]:
-        if np.sum(counts[merged[-1] : j]) > 0.0:
+        i = merged[-1]
+        n = np.sum(offset[i:j])
+        step = np.sum(duration[i:j]) * np.sum(counts[i:j]) / n if n > 0 else 0.0
+        if elapsed + step > elapsed:
             merged.append(j)
+            elapsed += step
     if merged[-1] != changepoints[-1]:
         if len(merged) > 1:
             merged[-1] = changepoints[-1]
